@@ -202,6 +202,7 @@ class RArr:
     def _norm_index(self, idx):
         if not isinstance(idx, tuple):
             idx = (idx,)
+        idx = tuple(int(i) if type(i).__name__.startswith(("int", "uint")) and not isinstance(i, int) else i for i in idx)
         if any(i is Ellipsis for i in idx):
             k = idx.index(Ellipsis)
             n_real = sum(1 for i in idx if i is not None and i is not Ellipsis)
@@ -232,6 +233,12 @@ class RArr:
                 return [rec(d, rest)]
             if isinstance(i, slice):
                 return [rec(x, rest) for x in d[i]]
+            if hasattr(i, "__len__") and not isinstance(i, (str, RArr)):
+                # a concrete boolean mask or index list along this axis
+                vals = list(i)
+                if vals and all(type(b).__name__ in ("bool", "bool_") for b in vals):
+                    vals = [k for k, b in enumerate(vals) if b]
+                return [rec(d[int(k)], rest) for k in vals]
             return rec(d[int(i)], rest)
         r = rec(self.data, idx)
         return RArr(r, self.dtype) if isinstance(r, list) else r
@@ -252,7 +259,58 @@ class RArr:
         if isinstance(idx, int):
             self.data[idx] = v.data if isinstance(v, RArr) else _num(v)
             return
+        if isinstance(idx, tuple):
+            self._store_tuple(idx, v)
+            return
         raise Escape("rnp: store with this index form")
+
+    def _store_tuple(self, idx, v):
+        """a[i0, i1, ...] = v with ints, slices and (at most one pair of) equal-length integer index arrays"""
+        idx = self._norm_index(idx)
+        arrs = [k for k, i in enumerate(idx) if isinstance(i, RArr)]
+        if arrs:
+            n = len(idx[arrs[0]].data)
+            for t in range(n):
+                sub = tuple(int(i.data[t]) if isinstance(i, RArr) else i for i in idx)
+                self._store_tuple(sub, v)
+            return
+        # positions addressed by the basic index, in row-major order of the target block
+        axes = []
+        for k, i in enumerate(idx):
+            axes.append(list(range(self.shape[k]))[i] if isinstance(i, slice) else [int(i)])
+        block_shape = tuple(len(a) for a, i in zip(axes, idx) if isinstance(i, slice))
+        vv = v if isinstance(v, RArr) else RArr(_num(v))
+        vs = vv.shape
+        for pos in itertools.product(*axes):
+            bi = tuple(a.index(p) for a, p, i in zip(axes, pos, idx) if isinstance(i, slice))
+            val = _get(vv.data, vs, bi) if vs else vv.data
+            d = self.data
+            for p in pos[:-1]:
+                d = d[p]
+            d[pos[-1]] = val
+
+    def reshape(self, *shape):
+        shape = shape[0] if len(shape) == 1 and isinstance(shape[0], (tuple, list)) else shape
+        flat = []
+
+        def rec(d):
+            if isinstance(d, list):
+                for x in d:
+                    rec(x)
+            else:
+                flat.append(d)
+        rec(self.data)
+        shape = tuple(int(x) for x in shape)
+        total = 1
+        for x in shape:
+            total *= x
+        if total != len(flat):
+            raise ValueError(f"cannot reshape array of size {len(flat)} into shape {shape}")
+        it = iter(flat)
+        return RArr(_build(shape, lambda ix: next(it)), self.dtype)
+
+    def __matmul__(self, o):
+        return RNP.matmul(self, o)
 
     def _assign(self, new):
         # in place: views handed out by __getitem__ with plain ints share the row lists
@@ -320,9 +378,48 @@ class RNP:
         return RArr(_map(f, a.data), a.dtype) if isinstance(a, RArr) else f(_num(a))
 
     @staticmethod
+    def copy(a):
+        return a.copy()
+
+    @staticmethod
+    def mean(a, axis=None):
+        if axis != -2 or a.ndim < 2:
+            raise Escape("rnp: mean over this axis")
+
+        def rec(d, depth):
+            if depth == a.ndim - 2:
+                n = len(d)
+                return [_sum([row[j] for row in d]) / n for j in range(len(d[0]))]
+            return [rec(x, depth + 1) for x in d]
+        return RArr(rec(a.data, 0), a.dtype)
+
+    @staticmethod
+    def transpose(a, axes=None):
+        if axes is None:
+            return a.T
+        shp = a.shape
+        new_shape = tuple(shp[k] for k in axes)
+
+        def elem(ix):
+            src = [0] * len(shp)
+            for pos, k in enumerate(axes):
+                src[k] = ix[pos]
+            return _get(a.data, shp, tuple(src))
+        return RArr(_build(new_shape, elem), a.dtype)
+
+    @staticmethod
     def matmul(a, b):
         a = a if isinstance(a, RArr) else RNP.array(a)
         b = b if isinstance(b, RArr) else RNP.array(b)
+        if a.ndim == 3 and b.ndim == 3:
+            if a.shape[0] != b.shape[0]:
+                raise ValueError("matmul: batch dimensions differ")
+            return RArr([RNP.matmul(RArr(x), RArr(y)).data for x, y in zip(a.data, b.data)], a.dtype)
+        if a.ndim == 2 and b.ndim == 2:
+            n = a.shape[1]
+            if n != b.shape[0]:
+                raise ValueError("matmul: inner dimensions differ")
+            return RArr([[_dot(row, [b.data[k][j] for k in range(n)]) for j in range(b.shape[1])] for row in a.data], a.dtype)
         if b.ndim != 2:
             raise Escape("rnp: matmul with a stack of matrices")
         n, m = b.shape
@@ -348,6 +445,13 @@ class RNP:
                 conds.append(_all(cs))
             out.append(SelIdx(conds))
         return RArr(out, "int64")
+
+
+def _sum(xs):
+    s = xs[0]
+    for x in xs[1:]:
+        s = s + x
+    return s
 
 
 def _dot(u, v):
